@@ -313,7 +313,12 @@ def run(ctx):
             okf = fact_is_absent(rels, lambda x: x == ("field", ("param", pfn.path, 1), "pub_key"))
             ctx.check("verified-iff-key", "false-only-without-key", okf, "verified = false only when no key was supplied",
                       "verified can be false although a key was supplied", pfn.loc(b))
-        ctx.floor("verified-iff-key", len(falses), 1, "`verified = false` sites")
+        vx = W.expand(pcs[0][3].get("verified")) if pcs[0][3].get("verified") is not None else None
+        if not falses and is_call(vx) and callee_name(vx[1]) == "is_some" and vx[2] and W.expand(vx[2][0]) == ("field", ("param", pfn.path, 1), "pub_key"):
+            # `verified = self.pub_key.is_some()`: false exactly when no key was supplied
+            ctx.ok("verified-iff-key", "flag-is-the-key-test", "verified = pub_key.is_some()", ctx.loc(pfn))
+        else:
+            ctx.floor("verified-iff-key", len(falses), 1, "`verified = false` sites")
 
     # ------------------------------------------------------------------ (4b) the delegation window is closed on both sides
     import rules.C01 as c01
@@ -367,6 +372,16 @@ def run(ctx):
             elif is_call(cond) and callee_name(cond[1]) in ("is_some", "is_none", "is_ok", "is_err", "contains_key") and cond[2] and is_call(values.strip_payload(cond[2][0])) and \
                     callee_name(values.strip_payload(cond[2][0])[1]) in PARSE:
                 why = "a field of the reply is missing or malformed"
+            if why is None and cond[0] == "discr" and isinstance(cond[1], tuple) and cond[1] and cond[1][0] == "phi":
+                # the result of a private `decode(..) -> Result<_, _>` helper: each way it ends is a parse call or a `?` on one / on verify_framing
+                def src_of(a):
+                    a = values.strip_payload(a)
+                    if is_call(a) and callee_name(a[1]) == "from_residual" and a[2]:
+                        a = values.strip_payload(a[2][0])
+                    return a
+                srcs = [src_of(a) for a in cond[1][1]]
+                if srcs and all(is_call(x) and (callee_name(x[1]) in PARSE or x[1].endswith("::verify_framing")) for x in srcs):
+                    why = "a parse or framing failure handed up by a helper (%s)" % ", ".join(sorted({callee_name(x[1]) for x in srcs}))
             ctx.check("client-rejections", "%s@%s" % (fp.split("::")[-1], fmt(cond)[:60]), why is not None, "rejection rule: %s" % why,
                       "the client aborts on a condition that is none of the protocol's reasons to refuse a reply (%s): an honest reply satisfying it is refused" % fmt(cond)[:200], f.loc(bl.idx))
     ctx.floor("client-rejections", nrej, 5, "aborting branches in the client's response handling (signatures, Merkle root, window)")
@@ -419,6 +434,12 @@ def run(ctx):
         ev = Ev(P, rr, binds={1: ("enum", VERSION, v)})
         live = ev.live()
         r = values.strip_payload(ev.ret())
+        if r[0] == "phi":
+            # `verify_framing(buf)?; RtMessage::from_bytes(..)` in a Result-returning helper: the `?` residual is the refusal, the other way out the parse
+            rest = [a for a in r[1] if not (is_call(values.strip_payload(a)) and callee_name(values.strip_payload(a)[1]) == "from_residual" and
+                                            values.contains(a, lambda x: is_call(x) and x[1].endswith("::verify_framing")))]
+            if len(rest) == 1:
+                r = values.strip_payload(rest[0])
         okr = is_call(r, "RtMessage::from_bytes") and r[2][0][0] == "index" and r[2][0][1] == ("param", rr.path, 2)
         lo = None
         if okr:
